@@ -157,6 +157,21 @@ def aggList (agg : Agg) (vmin vmax : V → V → V) : List V → V
 def splitRow (inds : List Nat) (row : List V) : List (List V) :=
   (inds.zip inds.tail).map fun (a, b) => (row.drop a).take (b - a)
 
+/-- longest path among all leaf sources and sensors -/
+def pathLen (leaves : List (Src G V)) (sensors : List (Sens G V)) : Nat :=
+  ((leaves.map (·.pos.length)) ++ (sensors.map (·.pos.length))).foldl max 0
+
+/-- the field tensor `[entry][m][sensor][pixel]` before pixel_agg / sumup / squeeze: per-leaf
+evaluation, collection loop, sensor back-rotation and handedness, split into sensors -/
+def tensor (flipX : V → V) (entries : List (Entry G V)) (sensors : List (Sens G V)) :
+    List (List (List (List V))) :=
+  let leaves := entries.flatMap Entry.leaves
+  let M := pathLen leaves sensors
+  let B0 := leaves.map (leafB sensors M)
+  let B1 := if leaves.length > entries.length then collapse 0 (entries.map Entry.colLen) B0 else B0
+  let B2 := applySensors flipX sensors B1
+  B2.map fun Bl => Bl.map (splitRow (pixInds sensors))
+
 /-- the whole of getBH_level2 after input formatting (ndarray output) -/
 def getBH (flipX : V → V) (vmin vmax : V → V → V) (entries : List (Entry G V))
     (sensors : List (Sens G V)) (sumup squeeze : Bool) (agg : Agg) : Except Err (Out V) :=
@@ -167,13 +182,9 @@ def getBH (flipX : V → V) (vmin vmax : V → V → V) (entries : List (Entry G
   let shapes := sensors.map (·.pixShape)
   let allSame := shapes.all (· == shapes.headD [])
   if agg == .none && !allSame then .error .badUserInput else
-  let M := ((leaves.map (·.pos.length)) ++ (sensors.map (·.pos.length))).foldl max 0
-  let B0 := leaves.map (leafB sensors M)
-  let B1 := if leaves.length > entries.length then collapse 0 (entries.map Entry.colLen) B0 else B0
-  let B2 := applySensors flipX sensors B1
-  let inds := pixInds sensors
+  let M := pathLen leaves sensors
   -- [src][m][sensor][pixel]
-  let B3 : List (List (List (List V))) := B2.map fun Bl => Bl.map (splitRow inds)
+  let B3 : List (List (List (List V))) := tensor flipX entries sensors
   let (pixShapeOut, B4) : List Nat × List (List (List (List V))) :=
     match agg with
     | .none => (shapes.headD [], B3)
